@@ -371,7 +371,9 @@ def mutate(r, der, offs=None):
             return "noop", der
         b = bytearray(der)
         for _ in range(r.choice([1, 1, 2, 4])):
-            b[s + h + r.randrange(n)] = r.choice([0, 0xFF, 0x80, 0x7F, r.randrange(256)])
+            idx = s + h + r.randrange(n)
+            if idx < len(b):        # an element of a malformed seed may claim more than the buffer holds
+                b[idx] = r.choice([0, 0xFF, 0x80, 0x7F, r.randrange(256)])
         return "bytes", bytes(b)
     if k == 12:     # nest: wrap the element into `depth` extra SEQUENCEs
         e = der[s:s + h + n]
